@@ -141,4 +141,157 @@ theorem normAxes_legal (rank : Nat) (axis : Axis) (h : LegalAxis rank axis) :
     obtain ⟨a, ha, rfl⟩ := List.mem_map.1 hk
     exact normAx_lt rank a (h.1 a ha)
 
+/-! ### NumPy's `normalize_axis_tuple` -/
+
+theorem pySet_sub (l : List Nat) (x : Nat) (h : x ∈ pySet l) : x ∈ l := by
+  induction l with
+  | nil => simp [pySet] at h
+  | cons z zs ih =>
+    unfold pySet at h
+    split at h
+    · exact List.mem_cons_of_mem _ (ih h)
+    · rcases List.mem_cons.1 h with e | e
+      · simp [e]
+      · exact List.mem_cons_of_mem _ (ih e)
+
+theorem mem_pySet (l : List Nat) (x : Nat) : x ∈ pySet l ↔ x ∈ l := by
+  induction l with
+  | nil => simp [pySet]
+  | cons y ys ih =>
+    unfold pySet
+    by_cases h : (pySet ys).contains y = true
+    · rw [if_pos h]
+      have hy' : y ∈ pySet ys := by simpa using h
+      have hy : y ∈ ys := pySet_sub ys y hy'
+      rw [ih]
+      constructor
+      · intro hx; exact List.mem_cons_of_mem _ hx
+      · intro hx
+        rcases List.mem_cons.1 hx with rfl | hx
+        · exact hy
+        · exact hx
+    · rw [if_neg h]
+      simp only [List.mem_cons, ih]
+
+theorem pySet_length_le (l : List Nat) : (pySet l).length ≤ l.length := by
+  induction l with
+  | nil => simp [pySet]
+  | cons y ys ih =>
+    unfold pySet
+    split
+    · simp; omega
+    · simp; omega
+
+/-- `len(set(axis)) == len(axis)` says exactly that no axis is repeated -/
+theorem pySet_length_eq_iff (l : List Nat) : (pySet l).length = l.length ↔ l.Nodup := by
+  induction l with
+  | nil => simp [pySet]
+  | cons y ys ih =>
+    have hle := pySet_length_le ys
+    unfold pySet
+    rw [List.nodup_cons]
+    by_cases h : (pySet ys).contains y = true
+    · rw [if_pos h]
+      have hy : y ∈ ys := ((mem_pySet ys y).1 (by simpa using h))
+      constructor
+      · intro e; simp at e; omega
+      · intro e; exact absurd hy e.1
+    · rw [if_neg h]
+      have hy : ¬ y ∈ ys := fun hy => h (by simpa using (mem_pySet ys y).2 hy)
+      simp only [List.length_cons, Nat.add_right_cancel_iff, ih]
+      exact ⟨fun e => ⟨hy, e⟩, fun e => e.2⟩
+
+theorem pyIndex_isSome (rank : Nat) (i : Int) : (pyIndex rank i).isSome = true ↔ InRange rank i := by
+  rw [pyIndex_eq]
+  by_cases h : InRange rank i
+  · simp [h]
+  · simp [h]
+
+/-- NumPy's validation accepts exactly the legal axis arguments … -/
+theorem npCheckAxis_ok_iff (rank : Nat) (axis : Axis) : npCheckAxis rank axis = .ok () ↔ LegalAxis rank axis := by
+  cases axis with
+  | none => simp [npCheckAxis, LegalAxis]
+  | int a =>
+    simp only [npCheckAxis, LegalAxis]
+    rw [← pyIndex_isSome]
+    cases (pyIndex rank a).isSome <;> simp
+  | tup l =>
+    simp only [npCheckAxis, LegalAxis]
+    have hall : (l.all fun a => (pyIndex rank a).isSome) = true ↔ ∀ a ∈ l, InRange rank a := by
+      rw [List.all_eq_true]
+      exact ⟨fun h a ha => (pyIndex_isSome rank a).1 (h a ha), fun h a ha => (pyIndex_isSome rank a).2 (h a ha)⟩
+    have hdup : ((pySet (l.map fun (a : Int) => (a % (rank : Int)).toNat)).length == l.length) = true
+        ↔ (l.map (normAx rank)).Nodup := by
+      rw [← pySet_length_eq_iff, List.length_map]
+      show _ ↔ (pySet (l.map fun (a : Int) => (a % (rank : Int)).toNat)).length = l.length
+      simp
+    by_cases h1 : (l.all fun a => (pyIndex rank a).isSome) = true
+    · rw [if_pos h1]
+      by_cases h2 : ((pySet (l.map fun (a : Int) => (a % (rank : Int)).toNat)).length == l.length) = true
+      · rw [if_pos h2]; exact ⟨fun _ => ⟨hall.1 h1, hdup.1 h2⟩, fun _ => rfl⟩
+      · rw [if_neg h2]
+        constructor
+        · intro e; cases e
+        · intro e; exact absurd (hdup.2 e.2) h2
+    · rw [if_neg h1]
+      constructor
+      · intro e; cases e
+      · intro e; exact absurd (hall.2 e.1) h1
+
+/-- … raises AxisError (IndexError) exactly when an entry is out of range … -/
+theorem npCheckAxis_index_iff (rank : Nat) (l : List Int) :
+    npCheckAxis rank (.tup l) = .error .index ↔ ∃ a ∈ l, ¬ InRange rank a := by
+  simp only [npCheckAxis]
+  have hall : (l.all fun a => (pyIndex rank a).isSome) = true ↔ ∀ a ∈ l, InRange rank a := by
+    rw [List.all_eq_true]
+    exact ⟨fun h a ha => (pyIndex_isSome rank a).1 (h a ha), fun h a ha => (pyIndex_isSome rank a).2 (h a ha)⟩
+  by_cases h1 : (l.all fun a => (pyIndex rank a).isSome) = true
+  · rw [if_pos h1]
+    constructor
+    · intro e; split at e <;> cases e
+    · rintro ⟨a, ha, hn⟩; exact absurd (hall.1 h1 a ha) hn
+  · rw [if_neg h1]
+    refine ⟨fun _ => ?_, fun _ => rfl⟩
+    apply Classical.byContradiction
+    intro hne
+    apply h1
+    rw [hall]
+    intro a ha
+    apply Classical.byContradiction
+    intro hn
+    exact hne ⟨a, ha, hn⟩
+
+/-- … and ValueError exactly when all entries are in range and an axis is repeated -/
+theorem npCheckAxis_value_iff (rank : Nat) (l : List Int) :
+    npCheckAxis rank (.tup l) = .error .value ↔ (∀ a ∈ l, InRange rank a) ∧ ¬ (l.map (normAx rank)).Nodup := by
+  have hok := npCheckAxis_ok_iff rank (.tup l)
+  have hidx := npCheckAxis_index_iff rank l
+  simp only [LegalAxis] at hok
+  constructor
+  · intro e
+    have h1 : ∀ a ∈ l, InRange rank a := by
+      intro a ha
+      apply Classical.byContradiction
+      intro hn
+      have := hidx.2 ⟨a, ha, hn⟩
+      rw [e] at this; cases this
+    refine ⟨h1, fun hnd => ?_⟩
+    have := hok.2 ⟨h1, hnd⟩
+    rw [e] at this; cases this
+  · rintro ⟨h1, h2⟩
+    cases hc : npCheckAxis rank (.tup l) with
+    | ok u => exact absurd (hok.1 (by rw [hc])).2 h2
+    | error err =>
+      cases err with
+      | index =>
+        obtain ⟨a, ha, hn⟩ := hidx.1 hc
+        exact absurd (h1 a ha) hn
+      | value => rfl
+      | type =>
+        exfalso
+        simp only [npCheckAxis] at hc
+        split at hc
+        · split at hc <;> cases hc
+        · cases hc
+
 end PMV.Reduce
